@@ -99,7 +99,7 @@ CHECKS = {
                          {"ws": "harness", "bin": "sched_store", "args": ["--prop", "C06"], "timeout": 10000}],
         },
         "text": "Nine harnesses on the real store (opened on tmpfs, memtable rollover on every write, skiplist heights 1 and 2): two-key batch vs. full scan; batch vs. two point reads; two writers of one key vs. a reader reading twice; delete and put vs. get+scan; put vs. one flush-loop iteration vs. get+scan; get+scan vs. one compaction-loop iteration on a two-file tree; two writers with read-back vs. a flush iteration. loom explores every interleaving of the lock, condition-variable, wait-list and skiplist operations up to the completed preemption bound; each execution's invocation/response history is checked by brute force against a sequential map (scan = one atomic read) and scans must show all or none of a batch.",
-        "note": "loom_kvs: file-system calls are real and not scheduling points; at most 3-4 threads; the completed preemption bound per harness is in the evidence (p=1..3 in the quick tier, because one execution opens a real store). sched_store complements it with a coarse-grained cooperative scheduler on real threads: switches only at named points of the write and flush paths (operation start, after sequencing, before each memtable entry, before the wait-list hand-off, after the rollover), every schedule with <= 2 preemptions (thorough 3) of five 3-4 thread harnesses with up to 4 operations per thread, each on a fresh store, every failing schedule replayed before it is reported.",
+        "note": "loom_kvs: file-system calls are real and not scheduling points; at most 3-4 threads; the completed preemption bound per harness is in the evidence (p=1..3 in the quick tier, because one execution opens a real store). sched_store complements it with a coarse-grained cooperative scheduler on real threads: switches only at named points of the write and flush paths (operation start, after sequencing, before each memtable entry, before the wait-list hand-off, after the rollover), every schedule with <= 2 preemptions (thorough 3) of five (C06) / two (C07) harnesses with 2-4 threads and up to 3 operations per thread, each on a fresh store, every failing schedule replayed before it is reported.",
     },
     "C07": {
         "level": "model_checking",
